@@ -95,6 +95,11 @@ func opposite(a byte) byte {
 // edge. visit is called on entering each (block, facts) state; returning true
 // stops the whole search.
 func walkPaths(fn *ssa.Function, cuts map[Edge]bool, visit func(b *ssa.BasicBlock, facts pathFacts) bool) {
+	walkPathsWith(fn, cuts, absValue, visit)
+}
+
+// walkPathsWith is walkPaths with a custom abstract evaluator.
+func walkPathsWith(fn *ssa.Function, cuts map[Edge]bool, abs func(v ssa.Value, f pathFacts) byte, visit func(b *ssa.BasicBlock, facts pathFacts) bool) {
 	if len(fn.Blocks) == 0 {
 		return
 	}
@@ -162,7 +167,7 @@ func walkPaths(fn *ssa.Function, cuts map[Edge]bool, visit func(b *ssa.BasicBloc
 						continue
 					}
 
-					cur := absValue(ft.V, nf)
+					cur := abs(ft.V, nf)
 					if cur != 0 && cur == opposite(a) {
 						feasible = false
 
@@ -202,7 +207,7 @@ func walkPaths(fn *ssa.Function, cuts map[Edge]bool, visit func(b *ssa.BasicBloc
 					continue
 				}
 
-				a := absValue(ph.Edges[idx], nf)
+				a := abs(ph.Edges[idx], nf)
 				if a != 0 {
 					nf = nf.with(ph, a)
 				} else if _, had := nf[ph]; had {
